@@ -137,8 +137,34 @@ struct Acc {
             samples.push_back(s);
         }
     }
+    // violations are kept stratified: at most per_class of each class (detail text with numbers blanked), so that a
+    // dense class cannot hide a rare one; the rest is only counted
+    std::map<std::string, uint32_t> class_count;
+    uint32_t                        per_class = 6;
+    static std::string vclass(const std::string &detail) {
+        std::string c;
+        bool        in_num = false;
+        for (char ch : detail) {
+            bool num = (ch >= '0' && ch <= '9') || (in_num && (ch == '.' || ch == 'e' || ch == 'x' || ch == '+' || ch == '-' || (ch >= 'a' && ch <= 'f')));
+            if (num) {
+                if (!in_num) {
+                    c += '#';
+                }
+                in_num = true;
+            } else {
+                in_num = false;
+                c += ch;
+            }
+            if (c.size() >= 60) {
+                break;
+            }
+        }
+        return c;
+    }
     void fail(const std::string &key, const std::string &detail, const std::string &replay) {
-        if (violations.size() < max_violations) {
+        uint32_t &n = class_count[vclass(detail)];
+        if (n < per_class && violations.size() < max_violations) {
+            ++n;
             violations.push_back({key, detail, replay});
         } else {
             ++dropped_violations;
